@@ -219,8 +219,14 @@ End Sem.
 (* the checker                                                                                       *)
 (* ------------------------------------------------------------------------------------------------ *)
 
+(* nothing unknown, and the literal text is ASCII: there [lower] is exactly Go's strings.ToLower (which also maps the
+   two non-ASCII code points U+212A and U+0130 to 'k' and 'i'); what fills a hole is arbitrary anyway *)
 Definition pat_known (pat : list pelem) : bool :=
-  forallb (fun e => match e with PUnknown _ => false | _ => true end) pat.
+  forallb (fun e => match e with
+                    | PUnknown _ => false
+                    | PFix s => forallb (fun c => c <? 128) (bytes_of_string s)
+                    | _ => true
+                    end) pat.
 
 Definition is_fix (e : pelem) : bool := match e with PFix _ => true | _ => false end.
 
@@ -334,3 +340,22 @@ Definition resp_fields_ok (structs : list (string * list (string * string * stri
 Definition secretish_fields (structs : list (string * list (string * string * string))) : list string :=
   flat_map (fun st => map (fun f => (fst st ++ "." ++ fst (fst f))%string)
                           (filter (fun f => secretish (fst (fst f)) || secretish (snd f)) (snd st))) structs.
+
+(* ------------------------------------------------------------------------------------------------ *)
+(* route table <-> read table                                                                        *)
+(* ------------------------------------------------------------------------------------------------ *)
+
+(* Every registration of the route table is analysed and names a handler the reads pass really walked
+   (gen/ReadSets.walked: a handler that reads nothing is in the list, a handler the pass never entered is not);
+   if the router has options (NotFound, MethodNotAllowed, PanicHandler ...) the ServeHTTP methods of the package
+   were walked too.  Without this, [respond tbl cfg h ...] for an unwalked handler h observes only the "*" rows
+   and non-interference would hold for it vacuously. *)
+Definition rt_handler (row : rt_row) : option string :=
+  match row with
+  | RtRow _ _ _ h _ => Some h
+  | RtUnknown _ _ => None
+  end.
+
+Definition route_handlers_walked (rt : list rt_row) (opts : list (string * string)) (walked : list string) : bool :=
+  forallb (fun row => match rt_handler row with Some h => str_in h walked | None => false end) rt
+  && match opts with [] => true | _ => str_in "ServeHTTP" walked end.
